@@ -333,3 +333,163 @@ Theorem C05_sliced_margins_refuted :
     /\ pad_sliced (Some f) d w (joinlf ls) <> pad_gen (Some f) d w (joinlf ls).
 Proof. exact sliced_refuted. Qed.
 Print Assumptions C05_sliced_margins_refuted.
+
+(** *** the render CONTENT (round 6): [Padding.pad] is a public function on ANY render output of
+    the documented form — [height] lines separated by "\n", each occupying [width] columns;
+    what a line is made of (glyphs, escape sequences in the middle of the line, characters that
+    occupy no column such as U+2028, U+2029, U+0085, U+001C..U+001E) is the caller's.  The lines
+    of a render are what [split_lf] returns: the pieces between the [TLF] tokens and nothing
+    else ([C05_lines_are_split_at_lf_only]: the inverse of [joinlf] in both directions). *)
+From TI Require Import model.PadContent proofs.PadContentProofs model.PadContentTie.
+
+Theorem C05_lines_are_split_at_lf_only :
+  (forall R, joinlf (split_lf R) = R)
+  /\ (forall ls, ls <> [] -> (forall ln, In ln ls -> nolf ln) -> split_lf (joinlf ls) = ls)
+  /\ (forall R, length (split_lf R) = S (count_lf R)).
+Proof. exact (conj joinlf_split_lf (conj split_lf_joinlf split_lf_length_count)). Qed.
+Print Assumptions C05_lines_are_split_at_lf_only.
+
+(** MAIN (content): for EVERY token list [R] — no hypothesis whatever on what the lines
+    contain — the lines of the padded output are: [t] lines of fill, every line of [R]
+    unchanged between its left and right margins, [b] lines of fill; hence exactly
+    [t + (lines of R) + b] lines, and line [i] of [R] is found, token for token, on line [t + i] *)
+Theorem C05_pad_lines_any_content :
+  forall fill l t r b w R,
+  fill_nolf fill ->
+  split_lf (pad_gen fill (l, t, r, b) w R) = pad_lines_gen fill (l, t, r, b) w (split_lf R)
+  /\ length (split_lf (pad_gen fill (l, t, r, b) w R)) = (Z.to_nat t + length (split_lf R) + Z.to_nat b)%nat
+  /\ (forall i ln, nth_error (split_lf R) i = Some ln ->
+        nth_error (split_lf (pad_gen fill (l, t, r, b) w R)) (Z.to_nat t + i)
+        = Some (gfillseg fill l ++ ln ++ gfillseg fill r)).
+Proof.
+  intros fill l t r b w R Hf. split; [exact (pad_lines_any fill l t r b w R Hf)|].
+  split; [exact (pad_line_count fill l t r b w R Hf)|].
+  intros i ln Hi. exact (pad_line_unchanged fill l t r b w R i ln Hf Hi).
+Qed.
+Print Assumptions C05_pad_lines_any_content.
+
+(** every one-column fill (the hypothesis of [C05_pad_gen_rect]) has no line feed in it *)
+Theorem C05_one_column_fill_has_no_lf :
+  forall fill, (forall f, fill = Some f -> OneCell f) -> fill_nolf fill.
+Proof. exact one_cell_fill_nolf. Qed.
+Print Assumptions C05_one_column_fill_has_no_lf.
+
+(** PARAMETRICITY: padding commutes with ANY content of the lines that introduces no line
+    feed — [pad] of the render whose lines are [map f ls] is the padded lines with [f] applied
+    to the inner part of every render line, for any per-line map [f] ... *)
+Theorem C05_pad_content_parametric :
+  forall (f : list tok -> list tok) fill l t r b w ls,
+  fill_nolf fill -> ls <> [] -> (forall ln, In ln ls -> nolf (f ln)) ->
+  pad_gen fill (l, t, r, b) w (joinlf (map f ls)) = joinlf (pad_lines_map f fill (l, t, r, b) w ls)
+  /\ split_lf (pad_gen fill (l, t, r, b) w (joinlf (map f ls))) = pad_lines_map f fill (l, t, r, b) w ls.
+Proof. exact pad_content_parametric. Qed.
+Print Assumptions C05_pad_content_parametric.
+
+(** ... in particular for any token-by-token substitution [s] of the content (line feeds
+    stay) that introduces no line feed, on ANY render [R] *)
+Theorem C05_pad_commutes_with_token_substitution :
+  forall (s : tok -> list tok) fill l t r b w R,
+  fill_nolf fill -> (forall x, is_lf x = false -> nolf (s x)) ->
+  split_lf (pad_gen fill (l, t, r, b) w (subst_content s R))
+  = pad_lines_map (flat_map s) fill (l, t, r, b) w (split_lf R).
+Proof. exact pad_token_subst. Qed.
+Print Assumptions C05_pad_commutes_with_token_substitution.
+
+(** the statement discriminates: building the output line by line from a split that ALSO
+    breaks at (and drops) a further separator token ([str.splitlines()]) is the same function
+    on every render that holds no such token — no render of the library can tell — ... *)
+Theorem C05_extra_separator_agrees_without_separator :
+  forall issep fill l t r b w R,
+  forallb (fun x => negb (issep x)) R = true ->
+  pad_splitlines issep fill (l, t, r, b) w R = pad_gen fill (l, t, r, b) w R.
+Proof. exact splitlines_agrees_without_separator. Qed.
+Print Assumptions C05_extra_separator_agrees_without_separator.
+
+(** ... and refuted on a one-line render [a <zero-width> b]: the output has another number of
+    lines than [pad]'s, violates the line-structure equation of [C05_pad_lines_any_content],
+    and the character is gone *)
+Theorem C05_extra_separator_refuted :
+  exists fill d w R,
+    fill_nolf fill /\ nolf R /\ d = (1, 0, 0, 0)
+    /\ pad_splitlines is_nul fill d w R <> pad_gen fill d w R
+    /\ length (split_lf (pad_splitlines is_nul fill d w R)) <> length (split_lf (pad_gen fill d w R))
+    /\ split_lf (pad_splitlines is_nul fill d w R) <> pad_lines_gen fill d w (split_lf R)
+    /\ ~ In TNul (pad_splitlines is_nul fill d w R).
+Proof. exact splitlines_refuted. Qed.
+Print Assumptions C05_extra_separator_refuted.
+
+(** *** ANIMATED draws (round 6): "contains the original render unchanged at the offset dictated
+    by the horizontal and vertical alignment" holds, on the screen, for EVERY frame of an
+    animated [Renderable.draw].  The stream is C06's [Draw.anim_stream] (here with the distance
+    back to the render's top-left cell as a parameter: [PadAnim.anim_stream_by k], the code
+    being [k = pad_bottom]); by C06's final-state theorem, for every first frame, every list of
+    later frames (any frame count, any number of loops), every margins and fill, every screen
+    the padded box fits and every start row, the padded box finally shows — cell for cell —
+    what [pad] of the LAST frame drawn alone from the start position shows, nothing outside the
+    box is touched, and the cursor is on the line below it. *)
+From TI Require Import lib.TermScroll model.Draw model.PadAnim model.PadAnimTie
+     proofs.DrawLines proofs.DrawProofs proofs.PadAnimProofs.
+
+Theorem C05_animation_final_is_pad_of_last_frame :
+  forall (W H lm : Z) (fill : option glyph) (w h pl pt pr pb : Z),
+  0 <= pl -> 0 <= pt -> 0 <= pr -> 0 <= pb -> 0 <= lm ->
+  lm + (pl + w + pr) <= W -> pt + h + pb <= H ->
+  forall clear : list tok, ClearOK w h clear ->
+  forall (ls1 : list (list tok)) (lss : list (list (list tok))),
+  LinesRect all_cells w h ls1 -> (forall ln, In ln ls1 -> Downward ln) ->
+  Forall (LinesRect all_cells w h) lss ->
+  forall (t0 : term) (top0 : Z) (hide : bool),
+  okat t0 (row t0) lm -> top0 <= row t0 < top0 + H ->
+  DrawFinal W H lm top0 t0 hide (pl + w + pr) (pt + h + pb)
+    (pad fill (pl, pt, pr, pb) w (joinlf (lastframe ls1 lss)))
+    (anim_stream_by pb hide pl h clear (pad fill (pl, pt, pr, pb) w (joinlf ls1)) (map joinlf lss)).
+Proof. exact animation_final_is_pad. Qed.
+Print Assumptions C05_animation_final_is_pad_of_last_frame.
+
+(** with the margins dictated by the alignment ([C05_aligned_dims]) on the box
+    [max W w x max H h] *)
+Theorem C05_animation_final_at_alignment_offset :
+  forall (W H lm : Z) (fill : option glyph) (Wp Hp : Z) (ha va : nat) (w h : Z),
+  let '(pl, pt, pr, pb) := aligned_dims Wp Hp ha va w h in
+  0 <= lm -> lm + Z.max Wp w <= W -> Z.max Hp h <= H ->
+  forall clear : list tok, ClearOK w h clear ->
+  forall (ls1 : list (list tok)) (lss : list (list (list tok))),
+  LinesRect all_cells w h ls1 -> (forall ln, In ln ls1 -> Downward ln) ->
+  Forall (LinesRect all_cells w h) lss ->
+  forall (t0 : term) (top0 : Z) (hide : bool),
+  okat t0 (row t0) lm -> top0 <= row t0 < top0 + H ->
+  DrawFinal W H lm top0 t0 hide (Z.max Wp w) (Z.max Hp h)
+    (pad fill (pl, pt, pr, pb) w (joinlf (lastframe ls1 lss)))
+    (anim_stream_by pb hide pl h clear (pad fill (pl, pt, pr, pb) w (joinlf ls1)) (map joinlf lss)).
+Proof. exact animation_final_aligned. Qed.
+Print Assumptions C05_animation_final_at_alignment_offset.
+
+(** [anim_stream_by pad_bottom] is the stream of [model/Draw.v] *)
+Theorem C05_animation_stream_is_draw_model :
+  forall hide l b h clear P Fs,
+  anim_stream_by b hide l h clear P Fs = anim_stream hide l b h clear P Fs.
+Proof. exact anim_stream_by_bottom. Qed.
+Print Assumptions C05_animation_stream_is_draw_model.
+
+(** the statement discriminates: placing the frames after the first (and the final cursor
+    move) by the TOP margin is refuted as soon as the vertical margins differ *)
+Theorem C05_animation_by_top_margin_refuted :
+  exists fill pl pt pr pb ls1 lss,
+    LinesRect all_cells 1 1 ls1 /\ Forall (LinesRect all_cells 1 1) lss
+    /\ 0 <= pl /\ 0 <= pt /\ 0 <= pr /\ 0 <= pb /\ pt <> pb
+    /\ DrawFinal 10 8 0 0 (pos 0 0) true (pl + 1 + pr) (pt + 1 + pb)
+         (pad fill (pl, pt, pr, pb) 1 (joinlf (lastframe ls1 lss)))
+         (anim_stream_by pb true pl 1 [] (pad fill (pl, pt, pr, pb) 1 (joinlf ls1)) (map joinlf lss))
+    /\ ~ DrawFinal 10 8 0 0 (pos 0 0) true (pl + 1 + pr) (pt + 1 + pb)
+         (pad fill (pl, pt, pr, pb) 1 (joinlf (lastframe ls1 lss)))
+         (anim_stream_top true pl pt 1 [] (pad fill (pl, pt, pr, pb) 1 (joinlf ls1)) (map joinlf lss)).
+Proof. exact top_margin_refuted. Qed.
+Print Assumptions C05_animation_by_top_margin_refuted.
+
+(** a verdict 0 of the correspondence's judge on an animated draw means: the stream written is
+    the model's and the final screen passes the padding oracle from every start row *)
+Theorem C05_animation_tie_sound :
+  forall c, acheck c = 0%nat ->
+  amodel c = Some (a_obs c) /\ forallb (aoracle c) (a_rows c) = true /\ a_frames c <> [].
+Proof. exact acheck_zero_sound. Qed.
+Print Assumptions C05_animation_tie_sound.
